@@ -3,6 +3,7 @@
      plus the IMachine adapter around it,
    * one translation unit with the static Desc tables the reference model interprets.
 """
+import re
 import json
 from spec import SK, TK_NONE, TK_STATE, TK_DIRECT, TK_FORK, TK_ENTRY_PT, TRIG_COMPLETION, TRIG_KLEENE, to_json
 
@@ -248,6 +249,8 @@ class Emitter(object):
         w("#include <boost/msm/front/row2.hpp>")
         w("#include <boost/msm/front/operator.hpp>")
         w("#include <boost/msm/front/history_policies.hpp>")
+        if v["front"] == "E":
+            w("#include <boost/msm/front/euml/euml.hpp>")
         self.ser = bool(n.spec.get("serialize", False)) and not self.mp
         if self.ser:
             w("#include <boost/archive/text_oarchive.hpp>")
@@ -294,6 +297,8 @@ class Emitter(object):
                 continue
             else:
                 base = e["base"] if e["base"] else "EvBase"
+                if self.v["front"] == "E":
+                    base += ", msm::front::euml::euml_event<%s >" % e["name"]
                 w("struct %s : %s {" % (e["name"], base))
             w("  static constexpr int SIM_EV = %d;" % i)
             w("  %s() { occ = sim::OCC_UNKNOWN; chk = 0; }" % e["name"])
@@ -302,6 +307,9 @@ class Emitter(object):
                 w("  template <class E, class = std::enable_if_t<std::is_base_of_v<EvBase, E>>>")
                 w("  %s(E const& e) { occ = e.occ; chk = e.chk; }" % e["name"])
             w("};")
+        if self.v["front"] == "E":
+            for e in n.events:
+                w("static %s const e_%s;" % (e["name"], e["name"]))
         # any probing + posting: found through ADL on the fsm type
         w("template <class Any, class F> inline sim::EvInfo sim_probe_any(const Any& a, F*) {")
         w("  sim::EvInfo i;")
@@ -359,20 +367,26 @@ class Emitter(object):
 
     def emit_behaviours(self):
         n, w = self.n, self.w
+        eu = self.v["front"] == "E"
         for g in range(n.nleaves):
-            w("struct Grd%d {" % g)
+            w("struct Grd%d%s {" % (g, (" : msm::front::euml::euml_action<Grd%d >" % g) if eu else ""))
             w("  template <class E, class F, class S, class T> bool operator()(E const& e, F& f, S&, T&) const"
               " { return sim::hook_guard(%d, e, f); }" % g)
             w("  template <class E, class F, class S> bool operator()(E const& e, F& f, S&) const"
               " { return sim::hook_guard(%d, e, f); }" % g)
             w("};")
         for a in range(n.nactions):
-            w("struct Act%d {" % a)
+            w("struct Act%d%s {" % (a, (" : msm::front::euml::euml_action<Act%d >" % a) if eu else ""))
             w("  template <class E, class F, class S, class T> void operator()(E const& e, F& f, S&, T&) const"
               " { sim::hook_action(%d, e, f); }" % a)
             w("  template <class E, class F, class S> void operator()(E const& e, F& f, S&) const"
               " { sim::hook_action(%d, e, f); }" % a)
             w("};")
+        if eu:
+            for g in range(n.nleaves):
+                w("static Grd%d const g_%d;" % (g, g))
+            for a in range(n.nactions):
+                w("static Act%d const a_%d;" % (a, a))
         for f in n.flags:
             w("struct %s {};" % f)
         w("#define SIM_STATE_BODY(SITE) SIM_STATE_BODY2(SITE, false)")
@@ -402,6 +416,8 @@ class Emitter(object):
             bases = "msm::front::entry_pseudo_state<%d>" % S["region"]
         elif k == SK["exit_pt"]:
             bases = "msm::front::exit_pseudo_state<%s >" % n.events[S["exit_event"]]["name"]
+        if self.v["front"] == "E":
+            bases += ", msm::front::euml::euml_state<%s >" % S["name"]
         w("struct %s : %s {" % (S["name"], bases))
         if self.v["front"] == "R2":
             # row2: guards / actions are member functions of the source state; the state remembers its machine
@@ -419,11 +435,40 @@ class Emitter(object):
             w("  typedef %s flag_list;" % self.lst(S["flags"]))
         if S["deferred"]:
             w("  typedef %s deferred_events;" % self.lst([n.events[e]["name"] for e in S["deferred"]]))
-        if S["irows"]:
+        if S["irows"] and self.v["front"] == "E":
+            w("  BOOST_MSM_EUML_DECLARE_INTERNAL_TRANSITION_TABLE((")
+            w(",\n".join("    " + self.row_euml(n.rows[r]) for r in S["irows"]))
+            w("  ))")
+        elif S["irows"]:
             w("  typedef %s internal_transition_table;" % self.lst([self.row_cpp(n.rows[r]) for r in S["irows"]]))
         if S["cond_defer"] >= 0 and self.mp:
             w("  template <class E, class F> bool is_event_deferred(E const&, F&) const { return sim::env().cond_bit(%d); }" % S["cond_defer"])
         w("};")
+        if self.v["front"] == "E":
+            w("static %s const s_%s;" % (S["name"], S["name"]))
+
+    # ---- eUML: the transition table as an expression (functor front-end with an eUML table)
+    def guard_euml(self, R):
+        """the guard as written in the spec (own parentheses kept), over the guard instances: C++ does the precedence"""
+        txt = R.get("guard_text") or ""
+        return re.sub(r"g(\d+)", lambda m: "g_%s" % m.group(1), txt)
+
+    def row_euml(self, R):
+        n = self.n
+        if R["trigger"] == TRIG_KLEENE or any(a < 0 for a in R["actions"]) or R["tkind"] not in (TK_NONE, TK_STATE) or R["src"] != R["src_owner"]:
+            raise ValueError("row not expressible in the eUML variant")
+        src = "s_%s" % n.states[R["src"]]["name"]
+        left = src if R["trigger"] == TRIG_COMPLETION else "%s + e_%s" % (src, n.events[R["trigger"]]["name"])
+        if R["table"] != 0:
+            left = "e_%s" % n.events[R["trigger"]]["name"]
+        if R["guard"]:
+            left += " [%s]" % self.guard_euml(R)
+        if R["actions"]:
+            acts = ["a_%d" % a for a in R["actions"]]
+            left += " / " + (acts[0] if len(acts) == 1 else "(" + ", ".join(acts) + ")")
+        if R["table"] == 0 and R["tkind"] == TK_STATE:
+            return "s_%s == %s" % (n.states[R["tgts"][0]]["name"], left)
+        return left
 
     def emit_machine(self, M):
         n, v, w = self.n, self.v, self.w
@@ -449,9 +494,18 @@ class Emitter(object):
         w("  typedef %s initial_state;" % self.lst([self.state_type(r[0]) for r in M["regions"]]))
         if self.v["front"] == "R":
             self.emit_row_function_decls([n.rows[r] for r in M["rows"]])
-        w("  typedef %s transition_table;" % self.lst([self.row_cpp(n.rows[r]) for r in M["rows"]]))
-        if M["irows"]:
-            w("  typedef %s internal_transition_table;" % self.lst([self.row_cpp(n.rows[r]) for r in M["irows"]]))
+        if self.v["front"] == "E":
+            w("  BOOST_MSM_EUML_DECLARE_TRANSITION_TABLE((")
+            w(",\n".join("    " + self.row_euml(n.rows[r]) for r in M["rows"]))
+            w("  ), transition_table)")
+            if M["irows"]:
+                w("  BOOST_MSM_EUML_DECLARE_INTERNAL_TRANSITION_TABLE((")
+                w(",\n".join("    " + self.row_euml(n.rows[r]) for r in M["irows"]))
+                w("  ))")
+        else:
+            w("  typedef %s transition_table;" % self.lst([self.row_cpp(n.rows[r]) for r in M["rows"]]))
+            if M["irows"]:
+                w("  typedef %s internal_transition_table;" % self.lst([self.row_cpp(n.rows[r]) for r in M["irows"]]))
         if M["explicit_creation"]:
             w("  typedef %s explicit_creation;" % self.lst([self.state_type(s) for s in M["explicit_creation"]]))
         if M["activate_deferred"]:
